@@ -336,6 +336,14 @@ func (svr *Server) Close() error {
 		svr.lntls.Close()
 	}
 
+	// A connection's goroutines may be blocked inside another connection's ring
+	// buffer (a publisher delivering to a subscriber that has stopped reading),
+	// and stop() waits for them: close every connection and buffer first, so
+	// that no stop() waits for a goroutine only a later stop() would release.
+	for _, svc := range svr.svcs {
+		svc.abort()
+	}
+
 	for _, svc := range svr.svcs {
 		log.Tracef("Stopping service: %d", svc.id)
 		svc.stop()
